@@ -3,18 +3,9 @@
 selftest/mutants.json. Edit MUT, run once. Each must compile and keep the suite green to be meaningful (checked by hand)."""
 import os, shutil, subprocess, sys, json
 MUT = [
- ("hand-c03-r1-check-strict", "C03", ["R1/finalize/check-compares-neighbours-non-decreasing"], "src/creator/directory_pack/entry_store.rs", ".all(|w| w[0].compare(&keys, &w[1]).is_le())", ".all(|w| w[0].compare(&keys, &w[1]).is_lt())"),
- ("hand-c03-r1-comparator-swapped", "C03", ["R1/finalize/sorted-with-compare"], "src/creator/directory_pack/entry_store.rs", "let compare = |a: &Entry, b: &Entry| a.compare(&keys, b);", "let compare = |a: &Entry, b: &Entry| b.compare(&keys, a);"),
- ("hand-c03-r1-resort-once", "C03", ["R1/finalize/unsorted-never-goes-on"], "src/creator/directory_pack/entry_store.rs", "            while !self\n                .entries", "            if !self\n                .entries"),
- ("hand-c03-r2-prefix-swapped", "C03", ["R2/Array::cmp/same-field-self-vs-other"], "src/creator/directory_pack/value.rs", "    fn cmp(&self, other: &Array) -> cmp::Ordering {\n        match self.data.cmp(&other.data) {", "    fn cmp(&self, other: &Array) -> cmp::Ordering {\n        match other.data.cmp(&self.data) {"),
- ("hand-c03-r2-greater-is-less", "C03", ["R2/ArrayS::::cmp_array/first-difference-decides"], "src/creator/directory_pack/value.rs", "        match self.data.as_slice().cmp(&other.data) {\n            cmp::Ordering::Less => cmp::Ordering::Less,\n            cmp::Ordering::Greater => cmp::Ordering::Greater,", "        match self.data.as_slice().cmp(&other.data) {\n            cmp::Ordering::Less => cmp::Ordering::Less,\n            cmp::Ordering::Greater => cmp::Ordering::Less,"),
- ("hand-c03-r3-arm-swapped", "C03", ["R3/Value.partial_cmp/self-vs-other"], "src/creator/directory_pack/value.rs", "                Value::Array0(other) => Some(v.cmp_array_s(other)),", "                Value::Array0(other) => Some(other.cmp_array(v)),"),
- ("hand-c03-r4-less-is-greater", "C03", ["R4/compare/sign-kept"], "src/creator/directory_pack/mod.rs", "                    cmp::Ordering::Less => return cmp::Ordering::Less,", "                    cmp::Ordering::Less => return cmp::Ordering::Greater,"),
- ("hand-c03-r5-left-stays-at-mid", "C03", ["R5/find/ordered/less-moves-left-beyond-mid"], "src/reader/directory_pack/range.rs", "                    left = mid + EntryCount::from(1);", "                    left = mid;"),
- ("hand-c03-r5-answers-absolute-index", "C03", ["R5/find/ordered/looks-at-offset-plus-i-answers-i"], "src/reader/directory_pack/range.rs", "                    return Ok(Some(mid));", "                    return Ok(Some(self.offset() + mid));"),
- ("hand-c03-r5-linear-skips-first", "C03", ["R5/find/linear/every-index"], "src/reader/directory_pack/range.rs", "            for idx in self.count() {", "            for idx in self.count().into_iter().skip(1) {"),
- ("hand-c03-r6-probe-prefix-is-less", "C03", ["R6/Array.cmp/probe-exhausted-first-is-greater"], "src/reader/directory_pack/raw_value.rs", "                None => return Ok(cmp::Ordering::Greater),", "                None => return Ok(cmp::Ordering::Less),"),
- ("hand-c03-r6-u8-swapped", "C03", ["R6/RawValue.partial_cmp/self-vs-other"], "src/reader/directory_pack/raw_value.rs", "            Value::Unsigned(v) => Ok(match self {\n                RawValue::U8(r) => Some((*r as u64).cmp(v)),", "            Value::Unsigned(v) => Ok(match self {\n                RawValue::U8(r) => Some(v.cmp(&(*r as u64))),"),
+ ("hand-c03-r12-length-of-the-inline-part", "C03", ["R12/ValueTransformer.next/inline-part-id-and-whole-length"], "src/creator/directory_pack/mod.rs", "                            let size = data.len();\n                            let (data, to_store) =\n                                data.split_at(cmp::min(*fixed_array_len, data.len()));", "                            let (data, to_store) =\n                                data.split_at(cmp::min(*fixed_array_len, data.len()));\n                            let size = data.len();"),
+ ("hand-c03-r12-inline-part-stored-again", "C03", ["R12/ValueTransformer.next/stored-part-is-what-follows-the-cut"], "src/creator/directory_pack/mod.rs", "                            let value_id = store_handle.add_value(to_store);", "                            let _ = to_store;\n                            let value_id = store_handle.add_value(data);"),
+ ("hand-c03-r12-cut-capped-by-a-constant", "C03", ["R12/ValueTransformer.next/cut-at-min-of-inline-length-and-length"], "src/creator/directory_pack/mod.rs", "data.split_at(cmp::min(*fixed_array_len, data.len()));", "data.split_at(cmp::min(cmp::min(*fixed_array_len, 8), data.len()));"),
 ]
 specs = json.load(open('/verif/selftest/mutants.json'))
 have = {s["name"] for s in specs}
